@@ -2,7 +2,7 @@
    contains statements, `exact`, and Print Assumptions only. *)
 From Coq Require Import List NArith Bool Sorted.
 From V.gen Require Consts.
-From V.Ts Require Import Model Proofs Answers Report ReportProofs.
+From V.Ts Require Import Model Proofs Answers Report ReportProofs ReportDead ReportDeadProofs.
 Import ListNotations.
 Open Scope N_scope.
 
@@ -227,6 +227,53 @@ Theorem C08_open_answered_when_delivered :
    exists dt' p, In (dt', EClosed p c) tr).
 Proof. exact open_answered_delivered. Qed.
 Print Assumptions C08_open_answered_when_delivered.
+
+(* ---- a protocol whose receiver is gone (ReportDead.v) ----
+   Without a dead protocol the layer is the base report model, so the theorems above apply. *)
+Theorem C08_report_layer_conservative :
+  forall l s bs,
+  all_base l = Some bs ->
+  dfinal (mkD s [] []) l = mkD (rfinal s bs) [] [] /\ drun (mkD s [] []) l = map lift (rrun s bs).
+Proof. exact drun_nodead. Qed.
+Print Assumptions C08_report_layer_conservative.
+
+(* What the remaining protocols observe when report_connection_established meets a dead protocol
+   (known finding, class 1 = F-C07b): the report fails and the connection is given up; nothing of
+   it is left waiting; every protocol has either been told "established" exactly once — precisely
+   the live protocols polled before the dead one whose channel had room — or nothing at all. *)
+Theorem C08_established_meets_dead_protocol :
+  forall d c mask,
+  d_dead d <> [] -> busy (d_s d) c = false -> existsb (N.eqb c) (d_gone d) = false ->
+  let d' := fst (dstep d (DEst c mask)) in
+  do_code (snd (dstep d (DEst c mask))) = 3 /\
+  d_dead d' = d_dead d /\ d_gone d' = c :: d_gone d /\
+  (forall p ch', nth_error (r_ch (d_s d')) p = Some ch' ->
+     exists ch, nth_error (r_ch (d_s d)) p = Some ch /\ rw ch' = rw ch /\ rdel ch' = rdel ch /\
+       (ch' = ch \/
+        (rq ch' = rq ch ++ [IEst c] /\ racc ch' = racc ch ++ [IEst c] /\
+         N.testbit mask (N.of_nat p) = true /\ is_dead d (N.of_nat p) = false /\
+         rw ch = [] /\ (length (rq ch) < r_cap (d_s d))%nat))).
+Proof. exact est_dead_observation. Qed.
+Print Assumptions C08_established_meets_dead_protocol.
+
+(* ... and "closed" for that connection can only come from an explicit report_connection_closed,
+   which is never issued for a connection that was given up (every report on it is refused) *)
+Theorem C08_no_closed_without_report :
+  forall d o c p ch ch',
+  nth_error (r_ch (d_s d)) p = Some ch -> nth_error (r_ch (d_s (fst (dstep d o)))) p = Some ch' ->
+  (forall b, o <> DBase (RClosed b)) ->
+  ~ In (IClosed c) (racc ch) -> ~ In (IClosed c) (racc ch').
+Proof. exact only_closed_reports_closed. Qed.
+Print Assumptions C08_no_closed_without_report.
+
+(* the witness of the class: protocol 0 dead, protocol 1 polled first — it is told "established"
+   for connection 7, the report fails, a later "closed" report for 7 is refused *)
+Theorem C08_dead_protocol_leak_witness :
+  let l := [DKill 0; DEst 7 2; DBase (RClosed 7); DBase (RDrain 1 9)] in
+  map do_code (drun (dinit 2 2) l) = [0; 3; 2; 0] /\
+  map do_got (drun (dinit 2 2) l) = [[]; []; []; [IEst 7]].
+Proof. vm_compute. split; reflexivity. Qed.
+Print Assumptions C08_dead_protocol_leak_witness.
 
 (* Without C06's "at most two connections per peer" the statement is false: with three, closing
    the ignored third drops the live secondary (secondary.take() on an unknown id), and the
